@@ -1,6 +1,7 @@
 import CM.Ops.Core
 import CM.Spec.TreeWF
 import CM.Spec.Tiling
+import CM.Spec.HtmlLang
 namespace CM.Ops
 open CM.Spec
 
@@ -16,6 +17,8 @@ def chkOp : Op
       | "grammar" => grammarWhy s t
       | "shapes" => shapesWhy s t
       | "renderpre" => if renderPre s t then "ok" else "render-precondition"
+      | "safepre" => if safePre s t then "ok" else "safe-precondition"
+      | "noraw" => if noRaw t then "1" else "0"
       | _ => bad
   | _ => bad
 
@@ -38,6 +41,11 @@ def tilingOp : Op
     | none => bad
   | _ => bad
 
-def checkOps : List (String × Op) := [("chk", chkOp), ("tiling", tilingOp)]
+/-- `html <outputHex>` → is the output in the language of C07? -/
+def htmlOp : Op
+  | [out] => hexArg out fun b => showBool (htmlWellFormed b)
+  | _ => bad
+
+def checkOps : List (String × Op) := [("chk", chkOp), ("tiling", tilingOp), ("html", htmlOp)]
 
 end CM.Ops
